@@ -80,10 +80,12 @@ func (m Mod) PB() *pbsubstreams.Module {
 	switch m.Kind {
 	case "map":
 		out.Kind = &pbsubstreams.Module_KindMap_{KindMap: &pbsubstreams.Module_KindMap{OutputType: "proto:sf.substreams.v1.test.MapResult"}}
+		out.Output = &pbsubstreams.Module_Output{Type: "proto:sf.substreams.v1.test.MapResult"}
 	case "store":
 		out.Kind = &pbsubstreams.Module_KindStore_{KindStore: &pbsubstreams.Module_KindStore{UpdatePolicy: sdsl.Kind{Policy: m.Policy}.PB(), ValueType: m.VType}}
 	case "index":
 		out.Kind = &pbsubstreams.Module_KindBlockIndex_{KindBlockIndex: &pbsubstreams.Module_KindBlockIndex{OutputType: "proto:sf.substreams.index.v1.Keys"}}
+		out.Output = &pbsubstreams.Module_Output{Type: "proto:sf.substreams.index.v1.Keys"}
 	}
 	for _, in := range m.Inputs {
 		switch in.T {
@@ -203,10 +205,20 @@ func GenQuery(t *rapid.T, keys []string, depth int) string {
 	case 1:
 		return "(" + a + " && " + b + ")"
 	case 2:
-		return "(" + a + " or " + b + ")"
+		return "(" + a + " || '" + b0(b) + "')"
 	default:
 		return "(" + a + " " + b + ")"
 	}
+}
+
+// b0 turns an expression into a harmless quoted key when it is a plain key, else returns k0.
+func b0(expr string) string {
+	for _, c := range expr {
+		if c == '(' || c == ' ' || c == '\'' {
+			return "k0"
+		}
+	}
+	return expr
 }
 
 // GenGraph draws an acyclic module graph that passes request validation: names match the
